@@ -204,6 +204,18 @@ func runC05(r *run) {
 	for i := 0; i < n; i++ {
 		c := &encCase{format: "l", lvl: encLevels[g.intn(len(encLevels))], ts: g.encTime(), msg: g.encMessage(true, false),
 			attrs: g.genAttrs(g.intn(9), 3, true, false), caller: g.chance(1, 4), tagW: 3, minW: 36}
+		if i%16 == 7 {
+			// a severity printed while still unregistered and registered afterwards
+			v := 300 + i
+			early := &encCase{format: "l", lvl: v, ts: g.encTime(), msg: "before the registration", tagW: 3, minW: 36, name: c.name}
+			encRun(r, "C05", early)
+			title := fmt.Sprintf("AUDIT-%d", i)
+			if err := slog.RegisterLevel(slog.Level(v), title); err != nil {
+				r.violate(violation{What: "harness: registration refused", Actual: err.Error()})
+			}
+			r.emit(fmt.Sprintf("C17 reg %d %s x x x x x x -1 -1 12 0", v, hxs(title)), "ok")
+			c.lvl = v
+		}
 		if i%8 == 3 {
 			// long lists with keys given more than once: the value given last is the pair's value
 			c.attrs = append(c.attrs, g.genWideAttrs(false)...)
@@ -277,6 +289,9 @@ func runC05(r *run) {
 			noise := &encCase{format: []string{"j", "c"}[g.intn(2)], lvl: 4, ts: g.encTime(), msg: g.encMessage(true, true),
 				attrs: g.genAttrs(1+g.intn(4), 2, true, true), tagW: 3, minW: 36, name: "other"}
 			encRun(r, "C05", noise)
+		}
+		if i%10 == 9 {
+			encStringerNoise([]string{"l", "j", "c"}[(i/10)%3])
 		}
 		encRun(r, "C05", c)
 		kinds := map[string]bool{}
